@@ -1332,3 +1332,155 @@ Section Supply.
     split; [apply (i_flow s I)|split; [apply (i_unc s I)|apply (i_bound s I)]].
   Qed.
 End Supply.
+
+(* ---- what holds for EVERY history (no validity needed) ---------------------------------------------- *)
+(* total = genesis + deposits + mints - withdrawal submissions over the finalization records (each
+   finalized transaction counted once), and the bounds. *)
+
+Record flow_inv (s : state) : Prop := {
+  j_wf : wf_txs s;
+  j_body : forall h, finalized s h = true -> exists t, lookup eq1 (s_txs s) h = Some t;
+  j_flow : forall a, total_of s a = supply_flow s a;
+  j_bound : forall a, 0 <= total_of s a <= capacity a
+}.
+
+Lemma flow_inv_ext : forall s s', s_txs s' = s_txs s -> s_fin s' = s_fin s -> s_total s' = s_total s ->
+  flow_inv s -> flow_inv s'.
+Proof.
+  intros s s' E1 E2 E3 H. destruct H. constructor.
+  - unfold wf_txs. rewrite E1. exact j_wf0.
+  - unfold finalized. rewrite E1, E2. exact j_body0.
+  - intros a. unfold total_of. rewrite E3. rewrite supply_flow_zsum, E1, E2, <- supply_flow_zsum. apply j_flow0.
+  - intros a. unfold total_of. rewrite E3. apply j_bound0.
+Qed.
+
+Lemma flow_inv_empty : flow_inv empty_state.
+Proof.
+  constructor; cbn; try (intros; discriminate).
+  - intros a. reflexivity.
+  - intros a. unfold total_of. cbn. split; [lia|apply capacity_nonneg].
+Qed.
+
+Lemma finalize_fresh_flow : forall s t sn s', flow_inv s -> lookup eq1 (s_txs s) (t_hash t) = Some t ->
+  finalized s (t_hash t) = false -> finalize_tx s t sn = Ok s' -> flow_inv s'.
+Proof.
+  intros s t sn s' J Hbody Hfresh H.
+  pose proof (finalize_tx_fresh s t sn s' Hfresh H) as F. destruct F.
+  assert (Hfin : forall y, finalized s' y = (t_hash t =? y)%N || finalized s y).
+  { intros y. unfold finalized at 1. rewrite fe_fin0. rewrite (mem_set eq1 eq1_ok). reflexivity. }
+  destruct fe_total0 as (nt & Hnt & Htot).
+  pose proof (new_total_delta t _ nt (proj1 (j_bound s J (t_asset t))) Hnt) as Hd.
+  assert (Hother : forall a, a <> t_asset t -> total_of s' a = total_of s a).
+  { intros a Ha. unfold total_of. destruct nt as [v|].
+    - destruct Htot as [Htot _]. rewrite Htot, (lookup_set_other eq1 eq1_ok); auto.
+    - rewrite Htot. reflexivity. }
+  constructor.
+  - unfold wf_txs. rewrite fe_txs0. apply (j_wf s J).
+  - intros y Hy. rewrite fe_txs0. rewrite Hfin in Hy.
+    destruct (N.eqb_spec (t_hash t) y) as [E|_]; [subst y; exists t; exact Hbody|apply (j_body s J y Hy)].
+  - intros a. rewrite supply_flow_zsum, fe_txs0, fe_fin0.
+    rewrite (set_keys_absent eq1) by (unfold finalized, mem in Hfresh; destruct (lookup eq1 (s_fin s) (t_hash t)); [discriminate|reflexivity]).
+    rewrite zsum_app, <- supply_flow_zsum, <- (j_flow s J a). cbn [zsum fold_right].
+    unfold flow_val. cbn [fst]. rewrite Hbody.
+    destruct (N.eqb_spec (t_asset t) a) as [E|Ha]; [subst a|].
+    + destruct nt as [v|].
+      * destruct Htot as [Htot _]. unfold total_of at 1. rewrite Htot, (lookup_set_same eq1 eq1_ok). lia.
+      * unfold total_of at 1. rewrite Htot. fold (total_of s (t_asset t)). lia.
+    + rewrite Hother by congruence. lia.
+  - intros a. destruct nt as [v|].
+    + destruct Htot as [Htot Hcap]. unfold total_of. rewrite Htot, (lookup_set eq1 eq1_ok). unfold eq1.
+      destruct (N.eqb_spec (t_asset t) a) as [E|Ha]; [subst a; lia|apply (j_bound s J a)].
+    + unfold total_of. rewrite Htot. apply (j_bound s J a).
+Qed.
+
+Lemma finalize_members_flow : forall hs s sn s', flow_inv s -> finalize_members s sn hs = Ok s' -> flow_inv s'.
+Proof.
+  induction hs as [|h r IH]; intros s sn s' J H; cbn [finalize_members] in H; [inv H; exact J|].
+  destruct (finalize_member s sn h) as [s1| |] eqn:Em; cbn [bind] in H; try discriminate.
+  eapply IH; [|exact H]. unfold finalize_member in Em.
+  destruct (lookup eq1 (s_txs s) h) as [t|] eqn:Eb; [|discriminate].
+  pose proof (j_wf s J h t Eb) as Hh.
+  destruct (finalize_tx s t sn) as [s0| |] eqn:Ef; cbn [bind] in Em; try discriminate. injection Em as <-.
+  assert (J0 : flow_inv s0).
+  { destruct (finalized s h) eqn:Efin.
+    - rewrite finalize_tx_done in Ef by (rewrite Hh; exact Efin). injection Ef as <-. exact J.
+    - eapply (finalize_fresh_flow s t sn s0 J); auto; rewrite Hh; auto. }
+  eapply flow_inv_ext; [| | |exact J0]; reflexivity.
+Qed.
+
+Lemma write_snapshot_core_flow : forall s sn s', flow_inv s -> write_snapshot_core s sn = Ok s' -> flow_inv s'.
+Proof.
+  intros s sn s' J H. apply write_snapshot_core_effect in H; [|apply (j_wf s J)].
+  destruct H as [_ (s1 & Hm & ->)]. pose proof (finalize_members_flow _ _ _ _ J Hm) as J1.
+  eapply flow_inv_ext; [| | |exact J1]; reflexivity.
+Qed.
+
+Lemma write_transaction_flow : forall s t s' r, flow_inv s -> write_transaction s t = (s', r) -> flow_inv s'.
+Proof.
+  intros s t s' r J H. pose proof (write_transaction_wf _ _ _ _ (j_wf s J) H) as Hwf.
+  apply write_transaction_txs in H. destruct H as [->|[Habs ->]]; [exact J|].
+  assert (Hother : forall y, finalized s y = true ->
+            lookup eq1 (set eq1 (s_txs s) (t_hash t) t) y = lookup eq1 (s_txs s) y).
+  { intros y Hy. apply (lookup_set_other eq1 eq1_ok). intros <-.
+    destruct (j_body s J _ Hy) as (t0 & E). congruence. }
+  constructor.
+  - exact Hwf.
+  - intros y Hy. change (finalized s y = true) in Hy. cbn. rewrite Hother by exact Hy. apply (j_body s J y Hy).
+  - intros a. transitivity (supply_flow s a); [exact (j_flow s J a)|].
+    rewrite !supply_flow_zsum. cbn [s_txs s_fin with_txs]. apply zsum_ext. intros [y x] Hin.
+    unfold flow_val. cbn [fst]. rewrite Hother; [reflexivity|].
+    unfold finalized. eapply (in_mem eq1 eq1_ok). exact Hin.
+  - apply (j_bound s J).
+Qed.
+
+Lemma lock_utxos_txn_fields : forall ks s h s', lock_utxos_txn s ks h = Ok s' ->
+  s_txs s' = s_txs s /\ s_fin s' = s_fin s /\ s_total s' = s_total s.
+Proof.
+  induction ks as [|k r IH]; intros s h s' H; cbn [lock_utxos_txn] in H; [inv H; auto|].
+  destruct (lock_utxo s k h) as [s1| |] eqn:E; cbn [bind] in H; try discriminate.
+  apply lock_utxo_shape in E. destruct E as (u & _ & _ & ->). apply IH in H. exact H.
+Qed.
+
+Lemma load_genesis_members_flow : forall l s s', flow_inv s -> load_genesis_members s l = Ok s' -> flow_inv s'.
+Proof.
+  induction l as [|[sn t] r IH]; intros s s' J H; cbn [load_genesis_members] in H; [inv H; exact J|].
+  destruct (write_transaction s t) as [s1 [[]| |]] eqn:Ew; try discriminate.
+  pose proof (write_transaction_flow _ _ _ _ J Ew) as J1.
+  destruct (write_snapshot_core s1 sn) as [s2| |] eqn:Ec; cbn [bind] in H; try discriminate.
+  pose proof (write_snapshot_core_flow _ _ _ J1 Ec) as J2.
+  eapply IH; [|exact H]. eapply flow_inv_ext; [| | |exact J2]; reflexivity.
+Qed.
+
+Lemma step_flow : forall s o, flow_inv s -> flow_inv (fst (step s o)).
+Proof.
+  intros s o J. destruct (step s o) as [s' r] eqn:E. cbn [fst].
+  destruct r as [[]| |]; try (rewrite (step_all_or_nothing s o s' _ E); [exact J|discriminate]).
+  destruct o; cbn [step] in E.
+  - inv E. eapply flow_inv_ext; [| | |exact J]; reflexivity.
+  - unfold load_genesis in E.
+    destruct (write_asset_info s Consts.Fin_Asset_XIN xin) as [s1| |] eqn:Ea; cbn [bind] in E; try (inv E; fail).
+    apply write_asset_info_shape in Ea. destruct Ea as (v & -> & _).
+    destruct (load_genesis_members (with_ainfo s v) l) eqn:El; inv E.
+    eapply load_genesis_members_flow; [|exact El]. eapply flow_inv_ext; [| | |exact J]; reflexivity.
+  - eapply write_transaction_flow; eauto.
+  - unfold lock_utxos in E. destruct (lock_utxos_txn s ks h) eqn:El; inv E.
+    apply lock_utxos_txn_fields in El. destruct El as (A & B & C). eapply flow_inv_ext; eauto.
+  - unfold lock_ghost_keys in E. destruct (has_dup ks); [inv E|].
+    destruct (lock_ghosts s ks h) eqn:El; inv E. apply lock_ghosts_keepu in El.
+    destruct El as [(K1&K2&K3&K4&_) _]. eapply flow_inv_ext; eauto.
+  - unfold write_snapshot in E. destruct (write_snapshot_txn s sn signers) as [s2| |] eqn:Et; inv E.
+    unfold write_snapshot_txn in Et. destruct (debug_asserts s sn); cbn [bind] in Et; try discriminate.
+    destruct (write_snapshot_core s sn) as [s1| |] eqn:Ec; cbn [bind] in Et; try discriminate. injection Et as <-.
+    pose proof (write_snapshot_core_flow _ _ _ J Ec) as J1.
+    eapply flow_inv_ext; [| | |exact J1]; reflexivity.
+Qed.
+
+Lemma run_flow : forall ops s, flow_inv s -> flow_inv (run s ops).
+Proof. induction ops as [|o r IH]; intros s J; cbn; auto. apply IH. apply step_flow. exact J. Qed.
+
+Lemma flow_theorem : forall ops a, let s := run empty_state ops in
+  total_of s a = supply_flow s a /\ 0 <= total_of s a <= capacity a.
+Proof.
+  intros ops a s. pose proof (run_flow ops empty_state flow_inv_empty) as J. fold s in J.
+  split; [apply (j_flow s J)|apply (j_bound s J)].
+Qed.
